@@ -134,8 +134,24 @@ def interval_semantics_prerelease(v) -> bool:
 
     live = v.get("_live") or {}
     env = live.get("env")
-    if env is None or not altsem.has_prerelease_env(env):
+    if env is None:
         return False
+    if not altsem.has_prerelease_env(env):
+        # mirror image: a pre/dev/post release *literal* in one of the atoms involved
+        involved = [x for x in [live.get("marker"), live.get("result"), *(live.get("operands") or [])] if x is not None]
+        if "text" in live:
+            from dep_logic.markers import _build_markers
+            from packaging.markers import Marker
+
+            def collect(ms):
+                for it in ms:
+                    if isinstance(it, list):
+                        collect(it)
+                    elif isinstance(it, tuple):
+                        involved.append(_build_markers(it))
+            collect(Marker(live["text"])._markers)
+        if not altsem.has_prerelease_literal(involved):
+            return False
     if "text" in live and "marker" in live:  # C03 text level: dep-logic's answer vs the unmerged text
         return altsem.text_eval(live["text"], env, "interval") == altsem.obj_eval(live["marker"], env, "interval") \
             and altsem.obj_eval(live["marker"], env, "interval") == altsem.text_eval(live["text"], env, "interval")
